@@ -48,7 +48,8 @@ CONSTANTS AsmMode, FixMode,      \* the mode in force for the state machine
           TargetOffs,            \* operand values offered: Base + offset
           RemOffs, RemLens,      \* @kind=!a1-a2: a1 = next skool address + offset, a2 = a1 + length - 1
           LabChoices,            \* subset of BOOLEAN: may a directive carry a label
-          Ctls                   \* control characters used: subset of {"c", "b", " ", "*"}
+          Ctls,                  \* control characters used: subset of {"c", "b", " ", "*"}
+          FeatureSets            \* set of sets of optional line classes; a file uses the classes of one of them
 
 VARIABLES prog, st, gen
 
@@ -146,11 +147,14 @@ UnclaimedNotes == { "org-not-first",       \* "@org works only on the first inst
                     "keep-on-inserted",    \* @keep is documented for "the next instruction" only
                     "bytes-override",      \* @bytes cannot be expressed in ASM text
                     "overwrite-unplaced",  \* | after an instruction whose skool address is unknown
+                    "before-and-after",    \* > and + on one directive contradict each other
+                    "bytes-length",        \* @bytes is for "an alternative set of opcodes" of the instruction: same length
                     "unlabelled-moved-ref" } \* operand = address of an unlabelled instruction that moved:
                                            \* skool2asm keeps the number and warns "No label for address"
 \* Inputs on which the tools must agree but this model is not definite
 UndocNotes == { "precedence",              \* executed directives of two kinds on one instruction
                 "label-on-comment-directive",
+                "data-with-insert",        \* are pending data directives placed before or after an inserted instruction?
                 "raw-moved" }              \* a token given by its bytes whose operand would have to follow an instruction
 
 Included(s, am, fm) ==
@@ -236,6 +240,9 @@ InsLine(s, line) ==
       n2 == (IF post.bad \/ (ovw /\ ~known) THEN {"overwrite-unplaced"} ELSE {})
             \cup (IF s.pkeep /\ \E x \in Range(pre.items \o post.items) : Refs(x.tok) # {} THEN {"keep-on-inserted"} ELSE {})
             \cup (IF s.pbytes # <<>> /\ s.pbytes # Bytes(cur, a1, cur.t) THEN {"bytes-override"} ELSE {})
+            \cup (IF \E d \in Range(D) : d.pre = 1 /\ d.app = 1 THEN {"before-and-after"} ELSE {})
+            \cup (IF s.pdata # <<>> /\ pre.items # <<>> THEN {"data-with-insert"} ELSE {})
+            \cup (IF s.pbytes # <<>> /\ Len(s.pbytes) # Size(cur) THEN {"bytes-length"} ELSE {})
             \cup (IF laterNoIns # <<>> \/ \E d \in Range(D) : d.pre = 1 /\ d.has = 0 /\ d.lab # ""
                   THEN {"label-on-comment-directive"} ELSE {})
       new0 == pre.items \o <<it>> \o post.items
@@ -334,7 +341,7 @@ GenInit == [ n |-> 0,        \* instruction lines written
              bkind |-> "", belse |-> FALSE,
              pend |-> 0,     \* sub/fix directives since the last instruction
              first |-> TRUE, haslab |-> FALSE, hasorg |-> TRUE, hasbytes |-> FALSE, haskeep |-> FALSE,
-             nlab |-> 0, cls |-> "" ]
+             nlab |-> 0, cls |-> "", feat |-> {} ]
 
 Tok(k, a, n, t) == [k |-> k, a |-> a, n |-> n, t |-> t]
 \* Tokens offered for the id-th instruction: three kinds and up to three operand values, rotating with id, so
@@ -353,6 +360,11 @@ TokPool(id) ==
             [] k = "defm" -> { Tok("defm", 0, 3, -1) }
             [] k = "defs" -> { Tok("defs", 48 + id, 1 + 2 * (id % 2), -1) }
           : k \in OfferedKinds(id) }
+
+\* directive kinds offered for the id-th line: two of the six, rotating (see TokPool)
+KindOrder == <<"isub", "ofix", "ssub", "bfix", "rsub", "rfix">>
+DirKinds(id) == LET K == { KindOrder[(id % 6) + 1], KindOrder[((id + 3) % 6) + 1] } \cap Kinds
+                IN IF K = {} THEN Kinds ELSE K
 
 Can(c) ==
   CASE c = "ins" -> gen.n < MaxIns
@@ -377,6 +389,7 @@ Emit(line, g) ==
 
 Pick(i) ==
   /\ gen.cls = ""
+  /\ Classes[i] \in gen.feat \cup {"ins", "sub", "lab", "else", "end"}
   /\ Len(prog) < MaxLines \/ Classes[i] \in {"ins", "end"}
   /\ Can(Classes[i])
   /\ gen' = [gen EXCEPT !.cls = Classes[i]]
@@ -396,7 +409,7 @@ InstructionLine(ctl, tok) ==
 
 Directive(kind, f, lab, has, tok) ==
   /\ gen.cls = "sub"
-  /\ kind \in Kinds /\ f \in FlagSets /\ lab \in LabChoices /\ has \in {0, 1}
+  /\ kind \in DirKinds(Len(prog)) /\ f \in FlagSets /\ lab \in LabChoices /\ has \in {0, 1}
   /\ tok \in (IF has = 1 THEN TokPool(8 + gen.n + gen.pend) ELSE {NoTok})
   /\ Emit(SubLine(kind, f, IF lab THEN "LD" \o ToString(gen.nlab) ELSE "", has, tok),
           [gen EXCEPT !.pend = @ + 1, !.nlab = IF lab THEN @ + 1 ELSE @])
@@ -460,13 +473,13 @@ Gap ==
 
 Init == /\ prog = <<[l |-> "org", v |-> -1]>>
         /\ st = Step(InitSt, [l |-> "org", v |-> -1], AsmMode, FixMode)
-        /\ gen = GenInit
+        /\ \E f \in FeatureSets : gen = [GenInit EXCEPT !.feat = f]
 
 DataVals == {<<201>>, <<7, 8, 9>>, <<513>>, <<Base + 1, 258>>, <<2, 255>>, <<4, 17>>}
 
 Next == \/ \E i \in 1..Len(Classes) : Pick(i)
         \/ gen.cls = "ins" /\ \E ctl \in {"c", "b", " ", "*"}, tok \in TokPool(gen.n) : InstructionLine(ctl, tok)
-        \/ gen.cls = "sub" /\ \E kind \in Kinds, f \in FlagSets, lab \in LabChoices, has \in {0, 1},
+        \/ gen.cls = "sub" /\ \E kind \in DirKinds(Len(prog)), f \in FlagSets, lab \in LabChoices, has \in {0, 1},
                                  tok \in TokPool(8 + gen.n + gen.pend) \cup {NoTok} : Directive(kind, f, lab, has, tok)
         \/ gen.cls = "rem" /\ \E kind \in Kinds, o \in RemOffs, len \in RemLens : Remove(kind, o, len)
         \/ gen.cls = "begin" /\ \E kind \in Kinds, plus \in {0, 1} : BlockBegin(kind, plus)
@@ -474,7 +487,7 @@ Next == \/ \E i \in 1..Len(Classes) : Pick(i)
         \/ gen.cls = "org" /\ \E v \in {-1, gen.sk, gen.sk + 16} : Org(v)
         \/ gen.cls = "data" /\ \E d \in {"defb", "defs", "defw"}, o \in {-1, 0, 2, 5}, vals \in DataVals : Defx(d, o, vals)
         \/ gen.cls = "bytes" /\ \E vals \in {<<237, 76>>, <<0>>, <<1, 2, 3>>} : BytesDir(vals)
-        \/ gen.cls = "if" /\ \E var \in {"asm", "fix"}, rel \in {">=", "==", "<"}, n \in 1..3, k1 \in Kinds,
+        \/ gen.cls = "if" /\ \E var \in {"asm", "fix"}, rel \in {">=", "==", "<"}, n \in 1..3, k1 \in DirKinds(Len(prog)),
                                 f \in FlagSets \cap {<<0, 0, 0, 0>>, <<1, 0, 0, 0>>, <<0, 1, 0, 0>>, <<0, 0, 1, 0>>},
                                 t1 \in TokPool(16 + gen.n), hasno \in BOOLEAN :
                                 If(var, rel, n, SubLine(k1, f, "", 1, t1), hasno,
